@@ -11,6 +11,8 @@ CONSTANTS
   SupervisorOrClosed = FALSE
   RetryByEpoch = FALSE
   AllowClose = TRUE
+  EpochBeforeResume = TRUE
+  HalfBroken = TRUE
 VIEW View
 INVARIANTS TokenPerDial NoStreamDetached CallersSurvive NotificationsOnce NoPanic NoDialAfterClose NoCallerParkedWhenClosed NoSupervisorParkedWhenClosed SilentAfterDisconnect
 CHECK_DEADLOCK FALSE
